@@ -5,6 +5,12 @@ Tie: stream `past-d`.  For every generated bounded-future specification and trac
    implementation  update() x n                        vs  model runOnline (pastify φ)  (bit-for-bit)
    property oracle for i >= hor:  update_i  =  offline evaluate() of the un-pastified spec on the prefix 0..i, at i-hor
                                            =  model rho on that prefix
+Configuration: the property is stated for bounds in the default unit and a sampling period of one default unit.  One case in four
+of the stream, and every case of the stream `next-configured` (specifications with next / s_next), is monitored with another
+default unit (ms, us, ns; s), the period written in that unit or a finer one (1 ms = 1000 us), and set_sampling_period called
+before parse(), between parse() and pastify() or after pastify() (the period is read when the first sample arrives, so the delays
+pastify() builds must not depend on what happens to be configured when it is called); the offline reference is configured the
+same way (period set before parse()).  The model is in samples and does not change.
 The theorem (C03_pastified_monitor_partial) covers the fragment `frag` (asked from the model, never
 re-implemented here); outside it the algorithm is wrong near the start of the trace (finding F15).
 """
@@ -14,14 +20,17 @@ from ..engine import Violation, Ctx
 
 RULE = ("bounded-future specs (depth<=5, bounds 0..4, horizons up to ~12): bounded eventually/always/until, next/s_next, all "
         "past and event operators, Boolean and arithmetic operators in arbitrary nesting; future-free specs as a sub-stream; "
-        "traces of length 1..14. distinct by (spec, data); non-trivial when some update with i>=hor has a finite value or the "
+        "traces of length 1..14; one case in four, and a stream of specifications with next / s_next, under another default unit "
+        "(period = one default unit, possibly written in a finer unit) with set_sampling_period before parse(), after parse() or "
+        "after pastify(). distinct by (spec, data); non-trivial when some update with i>=hor has a finite value or the "
         "outputs are not constant.")
 EXPLANATION = ("theorems: C03_past_identity (pastify = identity on future-free specs), C03_past_online (result has no future "
                "operator, intervals well formed), C03_past_eq_delayed (value of the pastified formula at i = original at i-R, "
                "for every remaining horizon R>=hor and i>=R, on the fragment), C03_pastified_monitor_partial (online monitor of "
                "pastify φ returns rho φ at i-hor on the trace seen so far). Correspondence: spec_print() after pastify() vs the "
                "model's pastify; update() stream vs the mirror; oracle = offline evaluate() of the original on each prefix.")
-ASSUMPTIONS = ["bounds written in the default unit and sampling period = 1 default unit (explicit units: finding F17, see C08)",
+ASSUMPTIONS = ["bounds written in the default unit and sampling period = 1 default unit, in any default unit and with the period set "
+               "at any place before the first update() (explicit units: finding F17, other periods: finding F35, see C08)",
                "bounded linear order (no NaN)"]
 
 VARS = ["a", "b", "c"]
@@ -35,23 +44,70 @@ def region_past_over_future(case):
 REGIONS = {"past-or-event-operator-over-future-subformula": region_past_over_future}
 
 
-def run_impl(case):
+UNITS = ["s", "ms", "us", "ns"]
+NS = {"s": 10 ** 9, "ms": 10 ** 6, "us": 10 ** 3, "ns": 1}
+# where set_sampling_period is called: the period is a configuration of the monitor that is read when the first sample arrives
+ORDERS = ["before-parse", "after-parse", "after-pastify"]
+
+
+def gen_config(rng):
+    """A configuration in which the property is stated the same way (bounds in the default unit, period = one default unit): the
+    default unit, the period written in the default unit or in a finer one (1 ms = 1000 us), and the place of set_sampling_period
+    - before parse(), between parse() and pastify(), or after pastify() (before the first update())."""
+    unit = rng.choice(["ms", "us", "ns", "ms", "us", "s"])
+    punit = unit if rng.random() < 0.6 else rng.choice([u for u in UNITS if NS[u] <= NS[unit]])
+    order = "after-pastify" if rng.random() < 0.6 else rng.choice(ORDERS)
+    return {"unit": unit, "period": NS[unit] // NS[punit], "punit": punit, "order": order}
+
+
+def sampling_of(cfg):
+    return (cfg["period"], cfg["punit"], 0.1)
+
+
+def offline_kw(case):
+    cfg = case.get("cfg")
+    return {} if not cfg else {"unit": cfg["unit"], "sampling": sampling_of(cfg)}
+
+
+def run_impl(case, limit=8.0):
     text = "out = " + F.to_text(case["f"])
     vs = case["decl"]
     data, n = case["data"], case["n"]
+    cfg = case.get("cfg")
 
     def go():
-        spec = impl.make_spec("ond", text, vs)
+        if cfg:
+            spec = impl.make_spec("ond", text, vs, unit=cfg["unit"], sampling=sampling_of(cfg) if cfg["order"] == "before-parse" else None)
+        else:
+            spec = impl.make_spec("ond", text, vs)
         spec.parse()
+        if cfg and cfg["order"] == "after-parse":
+            spec.set_sampling_period(*sampling_of(cfg))
         spec.pastify()
         if impl.twice(text):
             spec.pastify()          # the result has no future operator: a second pastify() must not change it
+        if cfg and cfg["order"] == "after-pastify":
+            spec.set_sampling_period(*sampling_of(cfg))
         printed = spec.spec_print()
         outs = []
         for i in range(n):
             outs.append(spec.update(i, [(v, data[v][i]) for v in vs]))
         return printed, outs
-    return text, impl.guarded(go)
+    if not cfg:
+        return text, impl.guarded(go)
+    # the same specification in the plain configuration takes milliseconds: a configured run that does not come back (a delay
+    # counted in the wrong unit) is an outcome; a busy machine is not - the call is repeated once with a generous limit
+    res = impl.guarded(go, limit, True)
+    if res[0] == "other" and res[1] == "Timeout" and limit < 60.0:
+        return run_impl(case, limit=90.0)
+    return text, res
+
+
+def config_text(case):
+    cfg = case.get("cfg")
+    if not cfg:
+        return ""
+    return " [unit=%s, period=%s %s set %s()]" % (cfg["unit"], cfg["period"], cfg["punit"], cfg["order"].replace("-", " "))
 
 
 def model(cases):
@@ -90,19 +146,22 @@ def check_case(ctx, case):
     h, n = case["hor"], case["n"]
     rep = {"spec": text, "formula": F.to_proto(case["f"]), "data": case["data"], "n": n, "horizon": h,
            "model_pastified": F.to_proto(case["past"]), "in_fragment": case["frag"], "impl": res, "model_online": case["m_on"]}
+    if case.get("cfg"):
+        rep["config"] = dict(case["cfg"])
     if res[0] != "ok":
-        return Violation("parse/pastify/update raised %r on bounded-future spec %s" % (res[1:], text), rep, stream=case["stream"]), None
+        return Violation("parse/pastify/update raised %r on bounded-future spec %s%s" % (res[1:], text, config_text(case)), rep,
+                         stream=case["stream"]), None
     printed, outs = res[1]
     if disc.nontrivial(outs[h:]) or len(set(outs)) > 1:
         ctx.nontrivial.add(disc.data_key(text, case["data"]))
     diff = None
     expected_name = F.to_name(case["past"]) + "\n"
     if printed != expected_name:
-        diff = Violation("pastify() printed %r, the model's pastify gives %r" % (printed.strip(), expected_name.strip()), rep,
+        diff = Violation("pastify() printed %r, the model's pastify gives %r%s" % (printed.strip(), expected_name.strip(), config_text(case)), rep,
                          failing_input=False, stream="past-d/spec_print")
     elif case["m_on"][0] != "ok" or not same_vals(outs, case["m_on"][1]):
         if not any(m[0] == "undef" for m in case["m_rho"]) or case["m_on"][0] != "ok":
-            diff = Violation("update() stream differs from the mirror of the pastified monitor: %s" % text, rep,
+            diff = Violation("update() stream differs from the mirror of the pastified monitor: %s%s" % (text, config_text(case)), rep,
                              failing_input=False, stream="past-d/mirror")
     if diff is None and case.get("pastgen") is not None and case["pastgen"] != case["past_line"]:
         diff = Violation("the horizon / pastifier methods translated from the source (run under the Lean semantics) give %r, the "
@@ -115,9 +174,10 @@ def check_case(ctx, case):
     for k, i in enumerate(range(h, n)):
         m = case["m_rho"][k]
         pre = {v: case["data"][v][:i + 1] for v in case["data"]}
-        off = impl.eval_offline_discrete(text, case["decl"], pre, i + 1)
+        off = impl.eval_offline_discrete(text, case["decl"], pre, i + 1, **offline_kw(case))
         if off[0] != "ok":
-            return Violation("offline evaluate() of the original raised %r on a prefix: %s" % (off[1:], text), rep, stream=case["stream"]), diff
+            return Violation("offline evaluate() of the original raised %r on a prefix: %s%s" % (off[1:], text, config_text(case)), rep,
+                             stream=case["stream"]), diff
         want = off[1][i - h][1]
         if m[0] == "undef":
             ctx.skipped_undef += 1
@@ -125,34 +185,58 @@ def check_case(ctx, case):
         if not common.num_eq(outs[i], want):
             rep2 = dict(rep, step=i, offline_prefix_value=want)
             return Violation("update() #%d of the pastified monitor returns %r; offline robustness of the original at sample %d "
-                             "on the %d samples seen so far is %r (hor=%d): %s" % (i, outs[i], i - h, i + 1, want, h, text),
+                             "on the %d samples seen so far is %r (hor=%d): %s%s" % (i, outs[i], i - h, i + 1, want, h, text, config_text(case)),
                              rep2, stream=case["stream"]), diff
         if m[0] == "ok" and not common.num_eq(want, m[1][i - h]):
-            return Violation("offline evaluate() of the original differs from rho on a prefix (see C01): %s" % text, rep,
+            return Violation("offline evaluate() of the original differs from rho on a prefix (see C01): %s%s" % (text, config_text(case)), rep,
                              stream=case["stream"]), diff
     return None, diff
 
 
-def gen_case(rng):
+def has_next(f):
+    return any(x[0] == "t1" and x[1] in ("next", "snext") for x in F.subformulas(f))
+
+
+def gen_case(rng, configured=False):
+    """`configured`: the stream `next-configured` - a specification with next / s_next, monitored in a configuration other than
+    the plain one (default unit, place of set_sampling_period; see gen_config).  One case in four of the main stream is
+    configured as well, whatever its operators."""
     g = F.Gen(rng, VARS, ALLOW, max_bound=rng.choice([1, 2, 3, 4]))
     r = rng.random()
-    if r < 0.12:
+    if r < 0.12 and not configured:
         g = F.Gen(rng, VARS, F.PAST_ONLY, max_bound=4)
         stream = "future-free"
     else:
         stream = "bounded-future"
     f = g.formula(rng.choice([1, 2, 2, 3, 3, 4, 5]))
+    cfg = None
+    if configured:
+        stream = "next-configured"
+        for _ in range(12):
+            if has_next(f):
+                break
+            f = g.formula(rng.choice([2, 3, 3, 4]))
+        if not has_next(f):
+            f = ("b", rng.choice(["and", "or"]), ("t1", rng.choice(["next", "snext"]), g.formula(1)), f)
+        cfg = gen_config(rng)
+    elif rng.random() < 0.25:
+        cfg = gen_config(rng)
     n = rng.randint(1, 14)
     vs = F.variables(f) or ["a"]
-    return {"stream": stream, "f": f, "n": n, "data": F.gen_trace(rng, vs, n), "decl": vs}
+    return {"stream": stream, "f": f, "n": n, "data": F.gen_trace(rng, vs, n), "decl": vs, "cfg": cfg}
 
 
-def explore(ctx, rng, count):
-    cases = [gen_case(rng) for _ in range(count)]
+def explore(ctx, rng, count, configured=False):
+    cases = [gen_case(rng, configured) for _ in range(count)]
     model(cases)
     for c in cases:
         ctx.evaluations += 1
         ctx.count("stream:" + c["stream"])
+        if c.get("cfg"):
+            ctx.count("configured:unit=%s" % c["cfg"]["unit"])
+            ctx.count("configured:period-set:" + c["cfg"]["order"])
+            if has_next(c["f"]):
+                ctx.count("configured:with-next" + ("/period-set-after-pastify" if c["cfg"]["order"] == "after-pastify" else ""))
         ctx.count("in-fragment" if c["frag"] else "outside-fragment(F15)")
         ctx.count("hor=%d" % c["hor"] if c["hor"] < 8 else "hor>=8")
         v, d = check_case(ctx, c)
@@ -167,9 +251,11 @@ def explore(ctx, rng, count):
             def fails(cc):
                 model([cc])
                 return cc["frag"] and check_case(scratch, cc)[0] is not None
-            c2 = disc.shrink_case(c, fails, budget=80)
+            # a run that ends in a time-out or in MemoryError is not shrunk (every attempt would take as long)
+            heavy = "Timeout" in v.what or "MemoryError" in v.what
+            c2 = c if heavy else disc.shrink_case(c, fails, budget=80)
             model([c2])
-            v2 = check_case(scratch, c2)[0] if c2["frag"] else None
+            v2 = check_case(scratch, c2)[0] if c2["frag"] and not heavy else None
             ctx.violations.append(v2 or v)
             if len(ctx.violations) >= 3:
                 return
@@ -180,7 +266,7 @@ def explore(ctx, rng, count):
 def case_of_replay(obj):
     f = F.from_proto(obj["formula"])
     return {"stream": "replay", "f": f, "n": obj["n"], "data": {k: [float(x) for x in v] for k, v in obj["data"].items()},
-            "decl": F.variables(f) or ["a"]}
+            "decl": F.variables(f) or ["a"], "cfg": dict(obj["config"]) if obj.get("config") else None}
 
 
 def replay(ctx, obj):
@@ -271,8 +357,12 @@ def run(ctx):
     if not ctx.violations:
         explore(ctx, ctx.subrng("past-d"), ctx.budget(900, 8000))
     if not ctx.violations:
+        explore(ctx, ctx.subrng("next-configured"), ctx.budget(90, 800), configured=True)
+    if not ctx.violations:
         modular_stream(ctx, ctx.subrng("modular"), ctx.budget(300, 2500))
 
 
 def search(ctx):
     explore(ctx, ctx.subrng("search"), ctx.budget(1200, 5000))
+    if not ctx.violations:
+        explore(ctx, ctx.subrng("search-next-configured"), ctx.budget(150, 800), configured=True)
